@@ -1468,7 +1468,8 @@ class ResetEnum(Suite):
             # per attribute: 0 = not set, 1 = set, 2 = set to a falsy value ('' / b'' / [])
             for pre in itertools.product((0, 1, 2), repeat=3):
                 for render in (False, True):
-                    for action in ('noop', 'status', 'text', 'media', 'raise_status', 'raise_error'):
+                    for action in ('noop', 'status', 'text', 'media', 'raise_status', 'raise_error', 'text_then_raise_status',
+                                   'text_then_raise_error'):
                         yield {'stack': stack, 'pre': list(pre), 'render': render, 'action': action}
 
     def run(self, case):
@@ -1494,6 +1495,14 @@ class ResetEnum(Suite):
             elif action == 'raise_status':
                 raise falcon.HTTPStatus(falcon.HTTP_203)
             elif action == 'raise_error':
+                raise falcon.HTTPConflict(title='handler conflict')
+            elif action == 'text_then_raise_status':
+                # the handler prepares something itself, then changes its mind: the raised status (no text) defines the response
+                resp.text = 'handler draft'
+                resp.media = {'handler': 'draft'}
+                raise falcon.HTTPStatus(falcon.HTTP_203)
+            elif action == 'text_then_raise_error':
+                resp.text = 'handler draft'
                 raise falcon.HTTPConflict(title='handler conflict')
 
         if asyn:
@@ -1523,11 +1532,12 @@ class ResetEnum(Suite):
         res = A.call(app, A.build_scope('GET', '/')) if asyn else W.call(app, W.build_environ('GET', '/'))
         if res.error is not None:
             raise Violation('exception_escaped', 'case=%r: %r escaped the app callable' % (case, res.error))
-        code = {'noop': 200, 'status': 202, 'text': 200, 'media': 200, 'raise_status': 203, 'raise_error': 409}[action]
+        code = {'noop': 200, 'status': 202, 'text': 200, 'media': 200, 'raise_status': 203, 'raise_error': 409,
+                'text_then_raise_status': 203, 'text_then_raise_error': 409}[action]
         ctx = 'case=%r: status %r body %r' % (case, res.code, res.body)
         if res.code != code:
             raise Violation('reset_wrong_status', ctx)
-        if action in ('noop', 'status', 'raise_status'):
+        if action in ('noop', 'status', 'raise_status', 'text_then_raise_status'):
             ok = res.body == b''
         elif action == 'text':
             ok = res.body == b'handler text'
